@@ -6,18 +6,21 @@ from . import families as fam
 from . import life
 
 EXPLANATION = (
-    "Decides: (R1) ownership census — pointers into the CQ mapping live only in Completions, which only Ring owns; "
-    "every other handle reaches kernel-shared memory through Arc<Shared>; ReadBuf and ReadBufPool hold "
-    "Arc<sys ReadBufPool>; (R2) unmap agreement — each munmap(ptr, len) in <Shared as Drop>::drop / <Completions as "
-    "Drop>::drop uses the pointer field stored at creation and a length expression that, after substituting the "
-    "constructor's field values, equals the length passed to the mmap that produced that pointer; (R3) the ring "
-    "descriptor is owned only by Shared.rfd (OwnedFd) and <Shared as Drop>::drop neither moves nor closes it, so it is "
-    "closed by field drop glue after the body unmapped; (R4) Ring::drop -> Completions::drop: submit pending entries "
-    "(enter), then register(SYNC_CANCEL, ANY|ALL), then a processing poll, with every step reached on every path "
-    "(errors are logged, not returned); (R5) <ReadBufPool as Drop>::drop unregisters the ring before both deallocs, "
-    "each dealloc layout comes from the same alloc_layout_* function with the same field arguments as in new, the "
-    "buffers' dealloc is on the non-null edge; (R6) a descriptor dropped after its Ring must notice that nobody will "
-    "submit the queued CLOSE — known finding K5. Absence of crashes for all permutations at run time is not decided."
+    'Decides: (R1) ownership census — pointers into the CQ mapping live only in Completions, which only Ring '
+    'owns; every other handle reaches kernel-shared memory through Arc<Shared>; ReadBuf and ReadBufPool hold '
+    'Arc<sys ReadBufPool>; (R2) unmap agreement — each munmap(ptr, len) in <Shared as Drop>::drop / '
+    '<Completions as Drop>::drop uses the pointer field stored at creation and a length expression that, after '
+    "substituting the constructor's field values, equals the length passed to the mmap that produced that "
+    'pointer; (R3) the ring descriptor is owned only by Shared.rfd (OwnedFd) and <Shared as Drop>::drop '
+    'neither moves nor closes it, so it is closed by field drop glue after the body unmapped; (R4) Ring::drop '
+    '-> Completions::drop: submit pending entries (enter), then register(SYNC_CANCEL, ANY|ALL), then an enter '
+    'with IORING_ENTER_GETEVENTS (poll alone skips the system call when completions are queued; needed to '
+    'fetch deferred task work), then a processing poll, with every step reached on every path (errors are '
+    'logged, not returned); (R5) <ReadBufPool as Drop>::drop unregisters the ring before both deallocs, each '
+    'dealloc layout comes from the same alloc_layout_* function with the same field arguments as in new, the '
+    "buffers' dealloc is on the non-null edge; (R6) a descriptor dropped after its Ring must notice that "
+    'nobody will submit the queued CLOSE — known finding K5. Absence of crashes for all permutations at run '
+    'time is not decided.'
 )
 NOT_DECIDED = "crash-freedom for every permutation of drops at run time"
 ASSUMPTIONS = ["struct fields are dropped after the Drop::drop body (language guarantee)"]
